@@ -172,8 +172,9 @@ def posOf : List Instr → List Bool → Nat → Nat
 
 def isReach (fl : List Bool) (e : Nat) : Bool := fl[e]? == some true
 
-/-- Closed form of `printParse` (equal to it when no reachable word is a redirect word). The
-entry list is returned in index order then character order, as the parser meets the labels. -/
+/-- Closed form of `printParse` (equal to it when no reachable word is a redirect word; the
+entry list is returned in the order of `es`, the parser's is in the order it meets the labels:
+the harness sorts both by character, the theorems compare them through `lookup`). -/
 def normalise (p : Prog) (es : List (Nat × Nat)) : Prog × List (Nat × Nat) :=
   let fl := reachable p es
   (⟨fixLast (compact p.instrs fl),
